@@ -1203,6 +1203,94 @@ func runRedef(c *Ctx) {
 			c.R.Add("REDEF-R5", "generated|error-result-complete", core.FuncName(body), p.Pos(body.Pos()), complete,
 				"on the error path every result slot holds a zero value and the error is written last", ternary(complete, "filled, then the error stored", why))
 		}
+		// the final error type is appended exactly when it is missing: the append is reached over two ways, "the function
+		// has no results" and "its last result is not the error type" — not under their negations, not under both at once
+		p.RegionInstrs(redefine, func(in ssa.Instruction) {
+			ap, ok := in.(*ssa.Call)
+			if !ok || core.CalleeName(ap.Common()) != "builtin.append" || core.TypeStr(ap.Type()) != "[]reflect.Type" {
+				return
+			}
+			isErrAppend := false
+			for _, e := range appendedValues(ap) {
+				if ld, ok := e.(*ssa.UnOp); ok && p.IsErrTypeGlobal(ld) {
+					isErrAppend = true
+				}
+			}
+			if !isErrAppend {
+				return
+			}
+			isLenZero := func(l core.Lit) (bool, bool) { // (is such a test, holds positively)
+				if l.Kind != "cmp" || l.Op != token.EQL {
+					return false, false
+				}
+				for _, pr := range [][2]ssa.Value{{l.X, l.Y}, {l.Y, l.X}} {
+					if cl, ok := pr[0].(*ssa.Call); ok && core.CalleeName(cl.Common()) == "builtin.len" {
+						if k, ok := core.ConstInt(pr[1]); ok && k == 0 {
+							return true, l.Pol
+						}
+					}
+				}
+				return false, false
+			}
+			isErrCmp := func(l core.Lit) (bool, bool) {
+				if l.Kind != "cmp" || l.Op != token.EQL {
+					return false, false
+				}
+				for _, v := range []ssa.Value{l.X, l.Y} {
+					if ld, ok := core.Strip(v).(*ssa.UnOp); ok && p.IsErrTypeGlobal(ld) {
+						return true, l.Pol
+					}
+				}
+				return false, false
+			}
+			blk := ap.Block()
+			bad, decided := "", false
+			if len(blk.Preds) == 2 {
+				nEmpty, nNotErr := 0, 0
+				for _, pr := range blk.Preds {
+					iff, isIf := pr.Instrs[len(pr.Instrs)-1].(*ssa.If)
+					if !isIf {
+						return
+					}
+					l := core.LitOf(iff.Cond, pr.Succs[0] == blk)
+					if is, pol := isLenZero(l); is {
+						decided = true
+						if pol {
+							nEmpty++
+						} else {
+							bad = "appended when the function HAS results, whatever the last one is"
+						}
+					} else if is, pol := isErrCmp(l); is {
+						decided = true
+						if !pol {
+							nNotErr++
+						} else {
+							bad = "appended when the last result IS the error type"
+						}
+					}
+				}
+				if decided && bad == "" && (nEmpty != 1 || nNotErr != 1) {
+					bad = "the two ways into the append are not \"no results\" and \"last result is not the error type\""
+				}
+			} else if len(blk.Preds) == 1 {
+				hasLen, hasErr := false, false
+				for _, l := range core.Lits(core.Guards(blk)) {
+					if is, pol := isLenZero(l); is && pol {
+						hasLen = true
+					}
+					if is, _ := isErrCmp(l); is {
+						hasErr = true
+					}
+				}
+				if hasLen && hasErr {
+					decided, bad = true, "appended only when the function has no results AND the comparison with the error type holds (a function with results never gets its error)"
+				}
+			}
+			if decided {
+				c.R.Add("REDEF-R5", "generated|error-type-appended-iff-missing", "Redefine", p.InstrPos(ap), bad == "",
+					"the final error type is appended exactly when the original has no results or its last result is not the error type", ternary(bad == "", "no results, or last result not the error type", bad))
+			}
+		})
 		// the error-path result list is as long as the declared result list: the list whose length sizes it is the very
 		// list handed to reflect.FuncOf — the same variable, or a field of the generated function's state that holds every
 		// alternative of that list (a state struct filled before the final error type is appended declares one result
